@@ -170,4 +170,47 @@ theorem makeCreateFrameW_eq (db : Db) (a : Addr) (w : Warmth) (value gasLimit : 
   simp only [makeCreateFrame_eq]
   rw [hsOf_journalEntry]
 
+/-! ## the `LoadedAsNotExisting` flag, and creations onto an address created earlier in the transaction -/
+
+theorem makeCreateFrameJ_flag (db : Db) (a : Addr) (j : JAccount) (f : Bool) (preloaded : Bool)
+    (value gasLimit : Nat) (sd : Bool) :
+    makeCreateFrameJ db a (some { j with notExisting := f }) preloaded value gasLimit sd =
+      makeCreateFrameJ db a (some j) preloaded value gasLimit sd := by
+  rw [makeCreateFrameJ_some, makeCreateFrameJ_some]
+
+theorem cacJ_flag (j : JAccount) (f : Bool) (hs : Bool) (value gasLimit : Nat) (sd : Bool) :
+    (createAccountCheckpointJ { j with notExisting := f } hs value gasLimit sd).1 =
+      (createAccountCheckpointJ j hs value gasLimit sd).1 ∧
+    (createAccountCheckpointJ { j with notExisting := f } hs value gasLimit sd).2.notExisting = f ∧
+    (createAccountCheckpointJ j hs value gasLimit sd).2.notExisting = j.notExisting := ⟨rfl, rfl, rfl⟩
+
+/-- a target with a non-zero nonce collides, on any entry -/
+theorem cac_nonce (t : Target) (hn : t.nonce ≠ 0) (hs : Bool) (value gasLimit : Nat) (sd : Bool) :
+    createAccountCheckpoint t hs value gasLimit sd = ⟨.collision, t, some gasLimit⟩ := by
+  have hc : collides t hs = true := by unfold collides; simp [hn]
+  simp [createAccountCheckpoint, hc]
+
+theorem cac_hs (t : Target) (value gasLimit : Nat) (sd : Bool) :
+    createAccountCheckpoint t true value gasLimit sd = ⟨.collision, t, some gasLimit⟩ := by
+  have hc : collides t true = true := by unfold collides; simp
+  simp [createAccountCheckpoint, hc]
+
+/-- after a successful creation from Spurious Dragon on, the account has nonce 1 -/
+theorem cac_frame_nonce (t : Target) (hs : Bool) (value gasLimit : Nat)
+    (h : (createAccountCheckpoint t hs value gasLimit true).result = .frame) :
+    (createAccountCheckpoint t hs value gasLimit true).target.nonce = 1 := by
+  unfold createAccountCheckpoint at *
+  by_cases hc : collides t hs = true
+  · simp [hc] at h
+  · by_cases ho : t.balance + value ≥ W
+    · simp [hc, ho] at h
+    · simp [hc, ho]
+
+theorem cac_vacant (t : Target) (h1 : t.codeHash = KECCAK_EMPTY) (h2 : t.nonce = 0) (value gasLimit : Nat) (sd : Bool)
+    (hb : t.balance + value < W) :
+    (createAccountCheckpoint t false value gasLimit sd).result = .frame := by
+  have hc : collides t false = false := by unfold collides; simp [h1, h2]
+  have ho : ¬ t.balance + value ≥ W := by omega
+  simp [createAccountCheckpoint, hc, ho]
+
 end Revm.Proofs.Collision
